@@ -98,6 +98,11 @@ def main(ctx):
                          lean=({'fn': 'mux', 'nin': nin, 'default': dflt} if True else None))
         run_case(ctx, 'select', [1, 3, 3], lambda i: [pyrtl.select(i[0], truecase=i[1], falsecase=i[2])],
                  lambda c: [c[1] if c[0] else c[2]], rng)
+        # the (deprecated) keyword form of mux, operands of different widths
+        run_case(ctx, 'mux_keywords', [1, 2, 4], lambda i: [pyrtl.mux(i[0], truecase=i[1], falsecase=i[2])],
+                 lambda c: [c[1] if c[0] else c[2]], rng)
+        run_case(ctx, 'select_positional', [1, 4, 2], lambda i: [pyrtl.select(i[0], i[1], i[2])],
+                 lambda c: [c[1] if c[0] else c[2]], rng)
         run_case(ctx, 'select_mixed_width', [1, 2, 4], lambda i: [pyrtl.select(i[0], i[1], i[2])],
                  lambda c: [c[1] if c[0] else c[2]], rng)
         # ---- sparse_mux: listed indices, default only for unlisted ones
@@ -153,6 +158,35 @@ def main(ctx):
             return [o1, o2]
         run_case(ctx, 'MultiSelector', [2, 3, 2, 3], b_ms,
                  lambda c: [c[1], c[2]] if c[0] == 0 else ([c[3], 1] if c[0] == 2 else [7, c[2]]), rng, limit=10)
+        # options declared in any order (not ascending), the default clause anywhere among them or absent when every
+        # value has its option; data from wires or plain ints
+        for _ms in range(ctx.n(4, 20)):
+            sw = rng.choice([1, 2, 3])
+            vals = list(range(1 << sw))
+            rng.shuffle(vals)
+            full = rng.random() < 0.4
+            opts = vals if full else vals[:rng.randint(1, len(vals) - 1)]
+            dpos = None if full else rng.randint(0, len(opts))
+            plan = [(v, rng.choice(['wire', 'int']), rng.getrandbits(3), rng.getrandbits(2)) for v in opts]
+            dplan = (rng.getrandbits(3), rng.getrandbits(2))
+
+            def b_ms2(i, plan=plan, dpos=dpos, dplan=dplan):
+                o1, o2 = pyrtl.WireVector(3), pyrtl.WireVector(2)
+                with muxes.MultiSelector(i[0], o1, o2) as ms:
+                    for k, (v, kind, c1, c2) in enumerate(plan):
+                        if dpos == k:
+                            ms.default(dplan[0], i[2])
+                        ms.option(v, (i[1] ^ c1) if kind == 'wire' else c1, c2)
+                    if dpos == len(plan):
+                        ms.default(dplan[0], i[2])
+                return [o1, o2]
+
+            def o_ms2(c, plan=plan, dplan=dplan):
+                for (v, kind, c1, c2) in plan:
+                    if c[0] == v:
+                        return [(c[1] ^ c1) if kind == 'wire' else c1, c2]
+                return [dplan[0], c[2]]
+            run_case(ctx, 'MultiSelector', [sw, 3, 2], b_ms2, o_ms2, rng, limit=10, shape=('order', tuple(opts), dpos))
         # ---- demux
         for sw in (1, 2, 3):
             run_case(ctx, 'demux', [sw], lambda i: list(muxes.demux(i[0])),
@@ -251,14 +285,24 @@ def main(ctx):
             first: Byte
             flag: 1
             second: 3
+        Word = pyrtl.wire_matrix(component_schema=4, size=3)
         run_case(ctx, 'wire_struct', [8], lambda i: (lambda b: [b.high, b.low, b])(Byte(Byte=i[0])),
                  lambda c: [c[0] >> 4, c[0] & 15, c[0]], rng)
         run_case(ctx, 'wire_struct_build', [4, 4], lambda i: (lambda b: [b, b.high, b.low])(Byte(high=i[0], low=i[1])),
                  lambda c: [(c[0] << 4) | c[1], c[0], c[1]], rng)
+        # components driven by plain wires that are narrower / wider than the declared field: the field keeps its width
+        run_case(ctx, 'wire_struct_build_resized', [8, 8],
+                 lambda i: (lambda b: [b, b.high, b.low])(Byte(high=i[0][0:3], low=i[1][0:6])),
+                 lambda c: [((c[0] & 7) << 4) | (c[1] & 15), c[0] & 7, c[1] & 15], rng, limit=16)
+        run_case(ctx, 'wire_struct_build_exprs', [4, 4],
+                 lambda i: (lambda b: [b, b.high, b.low])(Byte(high=i[0] + i[1], low=i[0][0:2])),
+                 lambda c: [(((c[0] + c[1]) & 15) << 4) | (c[0] & 3), (c[0] + c[1]) & 15, c[0] & 3], rng, limit=16)
+        run_case(ctx, 'wire_matrix_build_resized', [6, 3],
+                 lambda i: (lambda m: [m, m[0], m[1], m[2]])(Word(values=[i[0], i[1], i[0][1:4]])),
+                 lambda c: [((c[0] & 15) << 8) | (c[1] << 4) | ((c[0] >> 1) & 7), c[0] & 15, c[1], (c[0] >> 1) & 7], rng, limit=16)
         run_case(ctx, 'wire_struct_nested', [12],
                  lambda i: (lambda p: [p.first, p.first.high, p.first.low, p.flag, p.second, p])(Pair(Pair=i[0])),
                  lambda c: [c[0] >> 4, c[0] >> 8, (c[0] >> 4) & 15, (c[0] >> 3) & 1, c[0] & 7, c[0]], rng, limit=12)
-        Word = pyrtl.wire_matrix(component_schema=4, size=3)
         run_case(ctx, 'wire_matrix', [12], lambda i: (lambda m: [m[0], m[1], m[2], m])(Word(values=[i[0]])),
                  lambda c: [c[0] >> 8, (c[0] >> 4) & 15, c[0] & 15, c[0]], rng, limit=12)
         Grid = pyrtl.wire_matrix(component_schema=Byte, size=2)
